@@ -236,6 +236,24 @@ static double g_deadline = 0;   // monotonic seconds; 0 = none
 static int g_tier = 0;          // 0 quick, 1 thorough
 static bool g_replaying = false;
 static double g_first_fail = 0;
+static bool g_no_shrink = false;  // set when a failure cannot be shrunk in-process (leaks)
+
+// LeakSanitizer at case granularity.  Leaked memory stays leaked, so once a leak
+// has been seen every later check in this process would report it again: the
+// first leaking case is kept as it is (no in-process shrinking) and confirmed by
+// the driver in fresh processes.
+extern "C" int __lsan_do_recoverable_leak_check() __attribute__((weak));
+static bool leak_check_now()
+{
+  if (g_no_shrink || !__lsan_do_recoverable_leak_check)
+    return false;
+  if (__lsan_do_recoverable_leak_check())
+  {
+    g_no_shrink = true;
+    return true;
+  }
+  return false;
+}
 extern const char* PROP_ID;
 
 static inline double now_s()
@@ -580,7 +598,7 @@ int main(int argc, char** argv)
       return;  // budget used up: remaining iterations are no-ops (not counted)
     // shrinking is bounded in time: once the budget is spent every further
     // candidate "passes", so rapidcheck settles on the smallest failure so far
-    if (!g_stats.failure_msg.empty() && now_s() - g_first_fail > (g_tier ? 150.0 : 25.0))
+    if (!g_stats.failure_msg.empty() && (g_no_shrink || now_s() - g_first_fail > (g_tier ? 150.0 : 25.0)))
       return;
     RcSrc s;
     CaseInfo ci;
